@@ -232,8 +232,22 @@ func vf18Inconclusive(format string, a ...any) {
 	os.Exit(2)
 }
 
+// vf18TempRoot prefers a memory file system: the fixed tree fsyncs on every
+// start, which costs milliseconds per crash state on a disk.  Nothing depends
+// on the file system type (the crash states are replayed from the recorded
+// system calls, not taken from the disk).
+func vf18TempRoot() string {
+	if fi, err := os.Stat("/dev/shm"); err == nil && fi.IsDir() {
+		if d, err := os.MkdirTemp("/dev/shm", "vf18-probe-*"); err == nil {
+			os.Remove(d)
+			return "/dev/shm"
+		}
+	}
+	return ""
+}
+
 func vf18TempDir(pattern string) string {
-	d, err := os.MkdirTemp("", pattern)
+	d, err := os.MkdirTemp(vf18TempRoot(), pattern)
 	if err != nil {
 		vf18Inconclusive("cannot create temp dir: %v", err)
 	}
